@@ -188,6 +188,16 @@ func (fc *FnCtx) evalSpec(env *specEnv, e ast.Expr) Val {
 		p := fc.evalSpec(env, x.X)
 		return fc.derefVal(env, p)
 	case *ast.UnaryExpr:
+		if id, ok := x.X.(*ast.Ident); ok && x.Op == token.AND {
+			// &local for a local that lives in the heap (new T): the pointer itself
+			if _, shadow := env.vars[id.Name]; !shadow {
+				if al := env.resolveLocal(id.Name); al != nil && al.Heap {
+					if rv, ok := fc.regs[al]; ok {
+						return rv
+					}
+				}
+			}
+		}
 		v := fc.evalSpec(env, x.X)
 		switch x.Op {
 		case token.NOT:
